@@ -156,7 +156,7 @@ Prepare(t) ==
 Next ==
   \/ \E c \in Mutators : DoMut(c)
   \/ Snapshot
-  \/ \E i \in 1..Len(snaps) : Revert(i)
+  \/ \E i \in 1..MaxDepth : Revert(i)      \* (guarded by i <= Len(snaps))
   \/ Finalise
   \/ Prepare(2)
 
